@@ -22,7 +22,7 @@ func ExprContexts() []Ctx {
 		c("call-arg", fn("h(§)")),
 		c("call-arg-2nd", fn("h(1, §, 3)")),
 		c("call-fun", fn("(§)(1)")),
-		c("call-variadic-arg", fn("h(1, §...)")),
+		c("call-variadic-arg", fn("h(1, (§)...)")),
 		c("binary-left", fn("_ = § + 1")),
 		c("binary-right", fn("_ = 1 * §")),
 		c("unary", fn("_ = !§")),
